@@ -147,6 +147,22 @@ def checked_outcome(cond, truth):
                 if c == const(1):
                     return (mk("Eq", x, const(0)), is_none)
                 return (mk("Lt", x, c), is_none)
+        # `if let Some(slot) = v.get_mut(j)` / `v.get(j)`: Some exactly when j < v.len()
+        if a[0] == "call" and a[1] == "discriminant" and b[0] == "const" and b[1] in (0, 1) and a[2][0][0] == "call" \
+                and a[2][0][1].endswith(("::get_mut", "::get")) and ("Vec" in a[2][0][1] or "slice" in a[2][0][1] or a[2][0][1].startswith("[T]::")) and len(a[2][0][2]) == 2:
+            v_, j_ = a[2][0][2]
+            is_some = (b[1] == 1) == ((cond[1] == "Eq") == bool(truth))
+            return (mk("Lt", j_, ("call", "std::vec::Vec::len", (v_,))), is_some)
+        # `match a.cmp(&b) { Equal => .., Greater => .., Less => .. }`: a test of the Ordering's discriminant is the comparison
+        if a[0] == "call" and a[1] == "discriminant" and b[0] == "const" and type(b[1]) is int and a[2][0][0] == "call" and a[2][0][1].endswith("::cmp") \
+                and "Ord" in a[2][0][1] and len(a[2][0][2]) == 2:
+            x, y = a[2][0][2]
+            tr = (cond[1] == "Eq") == bool(truth)
+            if b[1] == 0:
+                return (mk("Eq", x, y), tr)
+            if b[1] == 1:
+                return (mk("Lt", y, x), tr)
+            return (mk("Lt", x, y), tr)
     if cond[0] == "call" and cond[1].endswith(("::is_some", "::is_none")) and len(cond[2]) == 1 and cond[2][0][0] == "call" and cond[2][0][1] == "checked":
         inner = cond[2][0][2][0]
         if inner[0] == "op" and inner[1] == "Sub" and len(inner[2]) == 2:
@@ -432,3 +448,21 @@ def discharged_by_facts(fn, prog, bi, tb):
             if tr and c[0] == "op" and c[1] == "Eq" and ("call", "discriminant", (arg,)) in c[2] and const(1) in c[2]:
                 return "unwrap() in the Some arm"
     return None
+
+
+def resolve_phi(t, facts):
+    """a two-valued join whose selecting test is known (terms.PHI_GUARD) is the value the facts select; `facts` is the usual
+    {repr(cond): truth} dict. Anything else is returned unchanged."""
+    from .terms import PHI_GUARD
+    for _ in range(3):
+        g = PHI_GUARD.get(repr(t)) if t and t[0] == "phi" else None
+        if g is None:
+            return t
+        v = fv(facts, g[0])
+        if v is True:
+            t = g[1]
+        elif v is False:
+            t = g[2]
+        else:
+            return t
+    return t
